@@ -907,6 +907,7 @@ func verifC12Sys(id string, seed int64) *verifSys {
 				fs = append(fs, verifFinding{"C12:success-on-foreign-messages", "the victim reports success although every SMP message came from another run"})
 			}
 		}
+		peerAbort := e.K == "peer-sends" && foreign[e.I].tlvType == tlvTypeSMPAbort
 		// what the victim sends goes to the real peer, whose answers come back
 		w.push(1, r.Out)
 		w.deliverAll(10, func(to int, _ []byte, rr verifResult) {
@@ -919,6 +920,16 @@ func verifC12Sys(id string, seed int64) *verifSys {
 				}
 			}
 		})
+		if (peerAbort || e.K == "abort") && !m.Ended && r.Panic == "" && V.C.IsEncrypted() && w.P[0].C.IsEncrypted() {
+			// an abort, whoever sent it, ends whatever run was under way on both sides: a run the peer starts next (the
+			// victim makes no call of its own other than giving the secret when asked) must succeed
+			w2 := w.clone()
+			w2.P[0].Rec.take()
+			w2.P[1].Rec.take()
+			if why := c12RunFrom(w2, 0); why != "" {
+				fs = append(fs, verifFinding{"C12:no-recovery:after-abort", fmt.Sprintf("after %s, a run started by the peer and answered with the same secret does not succeed: %s", e, why)})
+			}
+		}
 		return fs
 	}
 	sys.Final = func(w *verifWorld) []verifFinding {
@@ -1044,4 +1055,59 @@ func init() {
 			r.States += int64(n)
 		},
 	}
+}
+
+// c12RunFrom: principal ini starts an honest run, the other side answers with the same secret when asked, nothing
+// interferes; "" if both report success exactly once
+func c12RunFrom(w *verifWorld, ini int) string {
+	s := w.P[ini].StartSMP("", []byte("x"))
+	if s.Err != "" || s.Panic != "" {
+		return "StartAuthenticate fails: " + s.Err + s.Panic
+	}
+	w.push(ini, s.Out)
+	succ := [2]int{}
+	var evs [2][]string
+	for _, ev := range s.Events {
+		if ev.Kind == 'P' {
+			evs[ini] = append(evs[ini], SMPEvent(ev.Code).String())
+		}
+	}
+	for step := 0; step < 20; step++ {
+		moved := false
+		for to := 0; to < 2; to++ {
+			if len(w.Q[to]) == 0 {
+				continue
+			}
+			moved = true
+			rr := w.P[to].Receive(w.pop(to))
+			if rr.Panic != "" {
+				return rr.Panic
+			}
+			out := rr.Out
+			all := rr.Events
+			for _, ev := range rr.Events {
+				if ev.Kind == 'P' && to != ini && (SMPEvent(ev.Code) == SMPEventAskForSecret || SMPEvent(ev.Code) == SMPEventAskForAnswer) {
+					a := w.P[to].AnswerSMP([]byte("x"))
+					out = append(out, a.Out...)
+					all = append(all, a.Events...)
+				}
+			}
+			for _, ev := range all {
+				if ev.Kind == 'P' {
+					evs[to] = append(evs[to], SMPEvent(ev.Code).String())
+					if SMPEvent(ev.Code) == SMPEventSuccess {
+						succ[to]++
+					}
+				}
+			}
+			w.push(to, out)
+		}
+		if !moved {
+			break
+		}
+	}
+	if succ[0] != 1 || succ[1] != 1 {
+		return fmt.Sprintf("events %s=%v %s=%v", w.P[0].Name, evs[0], w.P[1].Name, evs[1])
+	}
+	return ""
 }
